@@ -4,7 +4,7 @@
    (SETUP first).  Queue order is wire order per stream (C05_per_stream). *)
 From Coq Require Import Arith NArith List Bool Init.Byte.
 From RSV Require Import gen.GenConst lib.Bytes model.Frame model.Fragmenter model.StreamIds model.Setup model.Endpoint
-     proofs.StreamIdsProofs proofs.SetupProofs proofs.EndpointProofs proofs.EndpointWire.
+     proofs.StreamIdsProofs proofs.SetupProofs proofs.EndpointProofs proofs.EndpointWire proofs.EndpointWireTypes.
 Import ListNotations.
 Open Scope N_scope.
 
@@ -58,6 +58,25 @@ Print Assumptions C08_reactions.
 Theorem C08_local_actions u e l oid : label_oid l = Some oid -> on_own_stream e oid (snd (ep_step u e l)).
 Proof. exact (local_action_own_stream u e l oid). Qed.
 Print Assumptions C08_local_actions.
+
+(* ... and only frame types its role in that interaction allows: the table [kind_allows] (request-response requester:
+   REQUEST_RESPONSE, CANCEL; stream requester: REQUEST_STREAM, REQUEST_N, CANCEL; channel requester: REQUEST_CHANNEL,
+   REQUEST_N, CANCEL, PAYLOAD, ERROR; responders: PAYLOAD, ERROR, and for a channel REQUEST_N, CANCEL), for every section
+   the API offers on such an object [label_fits] *)
+Theorem C08_local_action_types u e l oid o : label_oid l = Some oid -> nth_error (objs e) oid = Some o ->
+  label_fits l (o_kind o) = true ->
+  Forall (fun g => kind_allows (o_kind o) g = true) (enqs (snd (ep_step u e l))).
+Proof. exact (local_action_types u e l oid o). Qed.
+Print Assumptions C08_local_action_types.
+
+(* each new stream begins with the request frame of its interaction model, on the freshly allocated id (stream and
+   channel requests are sent by subscribe(): C08_request_frames) *)
+Theorem C08_request_opens_stream u e md d sid e1 : alloc e = (Some sid, e1) ->
+  enqs (snd (ep_step u e (LReqResponse md d))) = [FRequestResponse sid false false md d] /\
+  enqs (snd (ep_step u e (LFnf md d))) = [FRequestFnf sid false false md d] /\
+  enqs (snd (ep_step u e (LReqStream md d))) = [] /\ (forall hp, enqs (snd (ep_step u e (LReqChannel md d hp))) = []).
+Proof. exact (request_opens_stream u e md d sid e1). Qed.
+Print Assumptions C08_request_opens_stream.
 
 (* a request-response requester never answers a frame (no ERROR when the response races the caller's cancellation:
    the defect repaired by fix 96f0669) *)
